@@ -50,7 +50,13 @@ def read_all(cid, source, mode="yield", validate_until=None):
     ended = None
     try:
         for item in cutplace.rows(cid, source, on_error=mode, validate_until=validate_until):
-            items.append(item)
+            if isinstance(item, list):
+                # a delivered row belongs to the caller: it keeps a copy here and then scribbles over the original,
+                # which must not show in any row delivered later
+                items.append(list(item))
+                item[:] = ["<overwritten by the consumer>"]
+            else:
+                items.append(item)
     except Exception as error:  # noqa: the caller judges the type
         ended = error
     return items, ended
@@ -167,6 +173,24 @@ def check_case(sub, case):
         complete = compare_outcomes(sub, "C04", case, spec, expected, items, base_name, fmt_name)
         if complete:
             compare_end(sub, "C04", case, expected, ended, fmt_name)
+        if complete and via in ("stream", "path") and gen_tables.check_rows(spec):
+            # two readings of the same data under one Cid object, both set up before the first is consumed: each is
+            # a reading of its own
+            sources = [gen_tables.write_source(spec, rows, tmpdir, via, name=name) for name in ("first", "second")]
+            readings = [cutplace.rows(cid, source, on_error="yield") for source, _ in sources]
+            for number, (reading, (source, name)) in enumerate(zip(readings, sources)):
+                items, ended = [], None
+                try:
+                    for item in reading:
+                        items.append(item)
+                except Exception as error:  # noqa: judged below
+                    ended = error
+                if ended is not None and not isinstance(ended, errors.CheckError):
+                    sub.fail("C04|two-readings|exception|%s|%s" % (type(ended).__name__, fmt_name), case,
+                             "reading %d of 2 raised %s: %s" % (number + 1, type(ended).__name__, ended))
+                    break
+                if compare_outcomes(sub, "C04|two-readings", case, spec, expected, items, name, fmt_name):
+                    compare_end(sub, "C04|two-readings", case, expected, ended, fmt_name)
         outcomes = [o for o in expected["outcomes"] if o is not None]
         errors_ = [o for o in outcomes if o[0] == "error"]
         header = spec["fmt"].get("header", 0)
